@@ -80,7 +80,7 @@ claimed = {
             'threads under the deterministic scheduler, all schedules with at most one (quick) / two (thorough) preemptions per program plus '
             'random schedules, on initial trees forcing every structural change; each execution\'s history goes through the verified '
             'validator, each sampled event trace through the extracted acceptor. This exposed D3 (collapse prepends to the surviving '
-            'sibling\'s prefix without its lock: lost read), fixed by 0f504ae. SNAPSHOT CHECK (added): on every explored execution of the C03 programs, at every moment at which no write guard is held by any thread the whole tree is dumped and must have exactly the shape the extracted sequential model builds from the same entries (C03s_snapshot_oracle: that shape is a function of the entries), and the entry set may change between consecutive snapshots only by in-flight operations that eventually succeed - the link "code = ArtModel step = commit shape" is thereby observed under concurrency, not only sequentially. Protocol rule R1 is now also demanded of scans (C03_protocol_scan_loads).', '5 C03',
+            'sibling\'s prefix without its lock: lost read), fixed by 0f504ae. SNAPSHOT CHECK (added): on every explored execution of the C03 programs, at every moment at which no write guard is held by any thread the whole tree is dumped and must have exactly the shape the extracted sequential model builds from the same entries (C03s_snapshot_oracle: that shape is a function of the entries), and the entry set may change between consecutive snapshots only by in-flight operations that eventually succeed - the link "code = ArtModel step = commit shape" is thereby observed under concurrency, not only sequentially. Protocol rule R1 is now also demanded of scans (C03_protocol_scan_loads), and rule R6 - olc_art.hpp's own "a check() is required before acting on [node] by taking the lock": after a load from a node neither held nor owned no other node is read-locked before that node validated (C03_protocol_pointer_validated) - of operations and scans.', '5 C03',
             'Trusted: Coq 8.16.1 kernel, no axioms; sequential consistency; hooks at every lock-word / protected-field access; dsched; the '
             'search for a linearization is untrusted, its witness is checked by extracted lin_ok; schedules beyond the bound and programs '
             'beyond the listed ones are not covered.',
@@ -96,7 +96,7 @@ claimed = {
             '(C04b_generated_satisfy_discipline) and each hypothesis has a machine-checked witness that it is needed. NOT a Coq theorem: that the C++ '
             'accesses form such a trace over such a history (that the tree code retires exactly the nodes it unlinks and reads child pointers only out '
             'of nodes it reached). That is decided on the implementation for every explored schedule: any hooked access to a block after its free, '
-            'frees of reachable nodes, bytes behind every held value view re-read before the holder\'s quiescent state, and allocated == '
+            'frees of reachable nodes, every violation of the read protocol (unvalidated read, pointer followed before its source node was validated: rules R1 / R6 of the extracted acceptor, deterministic per operation), bytes behind every held value view re-read before the holder\'s quiescent state, and allocated == '
             'reachable after the drain.', '5 C04',
             'Trusted: as C03 and C05; leaf key/value bytes are plain memory (checked through the held-view re-read, not per access).',
             'Coq proofs over the QSBR model + schedule exploration of the real index with a freed-block / held-view oracle'),
@@ -216,7 +216,7 @@ claimed = {
             'period and all its loads are the values at opening; an upgrade succeeds only if no writer intervened; obsolete is final and '
             'rejects readers, checks and upgrades; no 64-bit wrap below 2^62 acquisitions. Word functions regenerated from '
             'optimistic_lock.hpp and bridged; the real lock is run under a deterministic scheduler and every trace is replayed by the '
-            'extracted acceptor.', '5 C07', LOCK_NOTE,
+            'extracted acceptor; a free-running probe keeps the write guard until a reader has gone through 10^8 iterations of the wait loop of try_read_lock (counted through the hook): the reader must still be waiting and must obtain a validating section after the unlock.', '5 C07', LOCK_NOTE,
             'Coq proof over an event acceptor + trace validation of the implementation under a deterministic scheduler'),
     'C11': ('proof', 'Coq theorems C11_uint/int/float/text/tuple over the encoder model for all values, widths and tuples; signed-integer '
             'and float value expressions are regenerated from the C++ AST on every run and bridged to the model by kernel-checked lemmas '
